@@ -29,6 +29,7 @@ func init() {
 			{"C06.seal-sync", ruleC06SealSync, ""},
 			{"C06.unlink-after-durable", ruleC06Unlink, ""},
 			{"C06.errs", ruleErrs, ""},
+			{"C06.recover-syncs", ruleC06RecoverSyncs, ""},
 		},
 		Explanation: "Under the stated power-loss model, decides three structural necessary conditions over all paths: (sync-reaches-fsync) DB.Sync, and Put/Delete in sync-after-every-write mode, cannot return success without File.Sync on the current segment, except through the test 'current segment is sealed'; OS-backed File implementations resolve Sync to (*os.File).Sync; (seal-sync) a segment is marked full only after a successful File.Sync of that same segment, so nothing is left unflushed when the log moves on; (unlink-after-durable) in compaction every path from a record copy to FileSystem.Remove passes File.Sync of the current segment. NOT decided: the contents of each power-loss image; that fsync honours its contract.",
 		Assumptions: commonAssumptions,
@@ -63,6 +64,7 @@ func init() {
 			{"C04.segment-end", ruleC03CompactComplete, ""},
 			{"C04.seal-after-replay", ruleC04SealAfterReplay, ""},
 			{"C04.sequence-monotonic", ruleC03SequenceMonotonic, ""},
+			{"C04.recover-syncs", ruleC06RecoverSyncs, ""},
 		},
 		Explanation: "Decides: (size-mirror) every length-changing call (Write, WriteAt, Truncate) made on the fs.File embedded in a pogreb.file assigns file.size of the same file on each success path (or is the reviewed in-place bucket rewrite / the function-local gob writer), so the in-memory append position cannot diverge from the file length after recovery truncates a torn tail; (unlock-owner) only a completed DB.Close releases the lock file, after all other steps, so an interrupted recovery is redone. NOT decided: contents along chains of crash images; idempotence of recovery as such.",
 		Assumptions: commonAssumptions,
@@ -84,6 +86,8 @@ func init() {
 			{"C07.one-section", ruleOneSection, ""},
 			{"C07.balanced", ruleBalanced, ""},
 			{"C07.fs-readers-pure", ruleFSReadersPure, ""},
+			{"C07.scan-cursor", ruleC11Cursor, ""},
+			{"C07.copy-inside-lock", ruleC14CopyInsideLock, ""},
 		},
 		Explanation: "Decides only the critical-section structure linearizability needs, with a path-sensitive lockset analysis on the call-string-cloned interprocedural graph of every API entry: (guarded) every read/write of index, datalog, segment-meta and file-size state and every fs.File call on a shared index/segment file reachable from an entry is made with DB.mu held in the required mode; (one-section) Put, Delete, Get, GetAppend, Has, Count, Sync and one iterator refill never release DB.mu and take it again; (balanced) every entry returns with the lockset it was entered with. NOT decided: the existence of a linearization for every history.",
 		Assumptions: append([]string{"guarded-state table of DESIGN.md 2.2 (fields of index, datalog, segmentMeta, file.size; I/O on index and segment files)"}, commonAssumptions...),
@@ -128,6 +132,8 @@ func init() {
 			{"C05.chain-exit", ruleC01ChainExit, ""},
 			{"C05.guarded", ruleGuarded, ""},
 			{"C05.balanced", ruleBalanced, ""},
+			{"C05.sequence-monotonic", ruleC03SequenceMonotonic, ""},
+			{"C05.seal-after-replay", ruleC04SealAfterReplay, ""},
 		},
 		Explanation: "Decides the invariants that make per-record compaction safe under interleaved writers, over all paths: the source is sealed under the exclusive lock before it is read, the log never appends to a sealed segment and swapSegment never installs one; a record is judged live on (hash, segment, offset), copied and the slot repointed to exactly the location the copy returned, only after a successful copy, all inside sections of DB.mu held exclusively (guarded); the source disappears only after the iterator reported a clean end of segment; a segment with delete records is compacted only together with all older ones, oldest first; the compaction walk of a bucket chain cannot end early. NOT decided: equality of contents before/during/after compaction for all schedules.",
 		Assumptions: commonAssumptions,
@@ -145,6 +151,7 @@ func init() {
 			{"C03.write-ahead", ruleC03WriteAhead, ""},
 			{"C03.tail-handling", ruleC08Gates, ""},
 			{"C03.size-mirror", ruleC04SizeMirror, ""},
+			{"C03.seal-after-replay", ruleC04SealAfterReplay, ""},
 		},
 		Explanation: "Decides the structural crash protocol over all paths: the lock file brackets every mutation of a session (taken first in Open, released last and only by a completed Close); on the recovery branch the non-segment files are moved aside before index and log are opened, recovery replays segments in ascending sequence order, sequence ids only grow; a record reaches the log in one WriteAt of the whole encoded record; Put appends to the log before touching the index and Delete writes the delete record inside the index removal; compaction unlinks a source only after a clean end of segment, repoints a slot only after the copy was written, and drops delete records only together with all older segments. NOT decided: the contents recovered from each crash image; sector-tearing atomicity (relies on the checksum, C08).",
 		Assumptions: commonAssumptions,
@@ -208,6 +215,9 @@ func init() {
 			{"C02.errs", ruleErrs, ""},
 			{"C02.swap-never-sealed", ruleC05SwapNeverSealed, ""},
 			{"C02.mapping", ruleC17, ""},
+			{"C02.remove-order", ruleC15RemoveOrder, ""},
+			{"C02.name-families", ruleC15NameFamilies, ""},
+			{"C02.sequence-monotonic", ruleC03SequenceMonotonic, ""},
 		},
 		Explanation: "Decides: (meta-symmetry) every field of the persisted metadata structs (indexMeta, dbMeta) is written from, and restored into, the same state field; every index field that changes during a session is persisted; Close and Open agree on the metadata file names and datalog.close writes each segment's own meta under its own name; (close-persists) every success return of Close wrote the db meta, every non-nil segment's meta, the index meta, and released the lock last; (open-order) a directory whose lock file did not pre-exist is opened without recovery, one whose lock file pre-existed is recovered; (errs) no error of a call in package pogreb is dropped on a path that can still report success; (swap-never-sealed) the segment picked as current at Open is one that is not full; (mapping) the memory-mapped file keeps its logical size in step and maps a file whole when it is opened larger than the initial mapping. NOT decided: that reopened contents/Count equal the closed ones for all histories; 'Open+Close changes nothing'.",
 		Assumptions: commonAssumptions,
